@@ -134,4 +134,10 @@ var specs = map[string]propSpec{
 		Rule: "rapid generates a Terraform-like world of 1-2 paths (variables typed by a type declaration and optionally type-less, locals addressable by expression type with nested list/map/object elements, resources with body-as-data / dependent-body-as-data / self references / count / for_each / nested blocks, dynamic-typed data blocks, outputs, modules whose inputs are path origins into the other path, implied origins, a direct origin on the module source) and configurations that reference exact, nested, missing, block-local (count.index, each.*, self.*) and cross-path addresses inside plain values, templates, lists, objects, calls, conditionals and operators; names come from pools of 3 so that references resolve. For every collected origin (cursor at its start, middle and end): go-to-definition must be sound (each reported declaration is a collected declaration of the path the origin points to, whose address equals the origin's - or is a prefix of it for dynamic-typed declarations - or whose local address equals it with the origin inside the declaring block, and which satisfies one scope/type constraint), complete (every collected declaration with exactly the origin's address that satisfies a constraint is reported), and inverse (find-references at each reported definition reports the origin). evaluations = lookups. Non-trivial = at least one origin resolved; distinct = SHA-1 of the case JSON.",
 		Assumptions: append([]string{"the sets of targets and origins are the library's own collectors' output on the generated world (the property quantifies over collected sets); resolution is judged by an independent matching predicate written from the statement"}, commonAssumptions...),
 	},
+	"C19": {
+		Test: "TestC19", Quick: 2000, Thorough: 15000, Shards: 16,
+		QuickTimeout: 10 * time.Minute, ThoroughTimeout: 40 * time.Minute,
+		Rule: "rapid generates a Terraform-like schema (variables, any-attribute locals addressable by expression type, resources with body-as-data / dependent bodies / nested blocks, dynamic-typed data blocks, outputs with reference / any-expression / one-of constraints) and one structured configuration (blocks with labels, literals of all primitive types, lists, objects, references written as ${...} templates and as legacy bare strings) which is rendered twice: native syntax and HCL JSON syntax. Differential oracle between the two worlds: absolute reference targets as a multiset of (address, type, scope, nesting depth) over the whole tree; reference origins as a multiset of addresses, each JSON origin's constraints being the native ones or the documented any-type fallback; block/attribute symbol outline (names, nesting) via the workspace query. Ranges and block-local targets are ignored as the statement says. evaluations = elements compared. Non-trivial = at least one reference and one nested target; distinct = SHA-1 of the case JSON.",
+		Assumptions: commonAssumptions,
+	},
 }
